@@ -816,6 +816,8 @@ fn one(report: &mut Report, case: Case, nontrivial: bool, ordinal: u64) {
         report.nontrivial += 1;
     }
     let cj = serde_json::to_value(&case).unwrap();
+    // a scenario that hangs is re-run with a 50 s deadline before it is reported as a hang
+    let _watch = crate::util::watch::enter_secs("session scenario", cj.clone(), 300);
     match catch(|| run_case(&case)) {
         Err(p) => report.violation("no_panic", json!({"where": "harness thread"}), cj, format!("panic: {p}"), ordinal),
         Ok((obs, what)) => {
